@@ -52,7 +52,8 @@ def toUncheckedEpochNanoseconds (d : IsoDate) (t : IsoTime) : Int :=
 
 /-- `iso_dt_within_valid_limits(date, time)` -/
 def isoDtWithinValidLimits (d : IsoDate) (t : IsoTime) : Bool :=
-  if d.toEpochDays.natAbs > MAX_EPOCH_DAYS then false
+  if ¬ (-271821 ≤ d.year ∧ d.year ≤ 275760) then false
+  else if d.toEpochDays.natAbs > MAX_EPOCH_DAYS then false
   else
     let ns := toUncheckedEpochNanoseconds d t
     let max := NS_MAX_INSTANT + NS_PER_DAY
